@@ -299,7 +299,7 @@ def fail_unrecognised(ctx, rule, M):
         if not r.ok:
             n += 1
             if r.kind != "return":
-                if r.kind in ("diverge",):
+                if r.kind in ("diverge", "infeasible", "unreachable"):
                     continue
                 if r.kind == "backedge" and r.o.where and r.o.where[0] != M["inner"]:
                     continue  # one iteration of a loop in an expanded callee (analysed by the multipart rules)
